@@ -155,8 +155,11 @@ def rule_scaler(ctx: Ctx) -> List[Ob]:
         xd = [short(v) for _, v, _ in rd.value_exprs(n, mm.x) if v is not None]
         gd = [(d, v) for d, v, _ in rd.value_exprs(n, gn)]
         xok = len(xd) == 1 and ("clip2bounds(x0" in xd[0] or "np.clip(x0" in xd[0])
-        gok = bool(gd) and all(v is not None and ("scaling_factor" not in src(v)) and
-                               (src(v) == f"{mm.sf}.grad({mm.x})" or src(v) == "checkpoint.jac") for _, v in gd)
+        def raw_grad(v):
+            if isinstance(v, ast.IfExp):
+                return raw_grad(v.body) and raw_grad(v.orelse)
+            return v is not None and src(v) in (f"{mm.sf}.grad({mm.x})", "checkpoint.jac")
+        gok = bool(gd) and all(raw_grad(v) for _, v in gd)
         obs.append(ob("SCALER", "called with (clipped start point, unscaled gradient, lb, ub)", mm.f, c, oka and xok and gok,
                       f"arguments {args}; x <- {xd}; grad <- {[short(v) for _, v in gd]}",
                       construct=short(c)))
@@ -203,6 +206,13 @@ def rule_units(ctx: Ctx) -> List[Ob]:
 
     def unit_of(e: ast.expr, st, n: Node) -> str:
         e = uncopy(e)
+        if isinstance(e, ast.IfExp):
+            a, b = unit_of(e.body, st, n), unit_of(e.orelse, st, n)
+            return a if a == b else MIXED
+        if isinstance(e, ast.Call) and (dotted(e.func) or "") in (f"{sf}.fun", f"{sf}.grad"):
+            return SCALED if n in post else RAW
+        if isinstance(e, ast.Attribute) and src(e).startswith("checkpoint."):
+            return RAW
         if isinstance(e, ast.Name):
             return st.get(e.id, RAW if n not in post else "?")
         if isinstance(e, ast.BinOp) and isinstance(e.op, ast.Div) and src(e.right) == fac:
